@@ -1,7 +1,7 @@
 #!/bin/bash
 # sweep.sh [tier] [ids…]: run every registered check (or the given ones) against /repo and summarise.
 TIER="${1:-quick}"; shift
-IDS="$@"; [ -z "$IDS" ] && IDS="C01 C02 C03 C04 C05 C06 C08 C09 C10 C11 C12 C13 C14 C15 C16 C17 C18 C19 C20"
+IDS="$@"; [ -z "$IDS" ] && IDS="C01 C02 C03 C04 C05 C06 C07 C08 C09 C10 C11 C12 C13 C14 C15 C16 C17 C18 C19 C20"
 cd "$(dirname "$0")/.."
 mkdir -p logs
 for id in $IDS; do
